@@ -101,9 +101,9 @@ func KeyFromPublic(pk *goecdsa.PublicKey) (key.Key, error) {
 		iana.KeyParameterKty:    iana.KeyTypeEC2,
 		iana.KeyParameterKid:    key.SumKid(pk.X.Bytes()), // default kid, can be set to other value.
 		iana.KeyParameterAlg:    alg,
-		iana.EC2KeyParameterCrv: crv,          // REQUIRED
-		iana.EC2KeyParameterX:   pk.X.Bytes(), // REQUIRED
-		iana.EC2KeyParameterY:   pk.Y.Bytes(), // REQUIRED
+		iana.EC2KeyParameterCrv: crv,                                                           // REQUIRED
+		iana.EC2KeyParameterX:   pk.X.FillBytes(make([]byte, (pk.Curve.Params().BitSize+7)/8)), // REQUIRED
+		iana.EC2KeyParameterY:   pk.Y.FillBytes(make([]byte, (pk.Curve.Params().BitSize+7)/8)), // REQUIRED
 	}, nil
 }
 
@@ -283,8 +283,9 @@ func ToPublicKey(k key.Key) (key.Key, error) {
 
 	curve, _ := getCurve(k.Alg())
 	ix, iy := curve.ScalarBaseMult(d)
-	x := ix.Bytes()
-	y := iy.Bytes()
+	size := (curve.Params().BitSize + 7) / 8
+	x := ix.FillBytes(make([]byte, size))
+	y := iy.FillBytes(make([]byte, size))
 
 	if k.Has(iana.EC2KeyParameterX) {
 		x2, _ := k.GetBytes(iana.EC2KeyParameterX)
